@@ -140,7 +140,12 @@ func (t *TxController) Rollback(ctx context.Context) error {
 		return err
 	}
 	t.finalized = true
-	for _, fn := range t.onRollback {
+	// Undo in reverse order of registration: a later step may have been built on
+	// an earlier one (a part written and then moved away again in the same
+	// transaction), and undoing the earlier one first would leave the later
+	// undo restoring what should be gone.
+	for i := range t.onRollback {
+		fn := t.onRollback[len(t.onRollback)-1-i]
 		if hookErr := fn(ctx); hookErr != nil && err == nil {
 			err = hookErr
 		}
